@@ -376,7 +376,35 @@ def hsm_value_error(case, log, labs):
                                   any(it[0] == 'raised' and it[2] == 'ValueError' for it in log))
 
 
+def mon_outlives(case, log):
+    """the processing of an event includes its callbacks: when `_trigger` is left (evend) every callback the event started
+    has ended — whatever awaitable the callback handed back.  Excused: the siblings of a callback that raised or was
+    cancelled (gather lets the stage end on the first failure) and events of a cancelled task."""
+    bad = []
+    running = {}          # tag -> {(slot, idx)}
+    broken = set()        # (tag, slot) stages with a raising / cancelled callback
+    chain_of = {}
+    cancelled = set()
+    for it in log:
+        if it[0] == 'evstart':
+            chain_of[it[1]] = it[3]
+        elif it[0] == 'cancel':
+            cancelled.add(it[1])
+        elif it[0] == 'cb':
+            running.setdefault(it[1], set()).add((it[2], it[3]))
+        elif it[0] == 'cbend':
+            running.get(it[1], set()).discard((it[2], it[3]))
+            if it[4] != 'ok':
+                broken.add((it[1], it[2]))
+        elif it[0] == 'evend':
+            left = [x for x in sorted(running.get(it[1], ())) if (it[1], x[0]) not in broken]
+            if left and chain_of.get(it[1]) not in cancelled:
+                bad.append(('event.callback_outlives', 'event %s ended (finalized, queue advanced) while its callbacks %s were '
+                            'still pending' % (it[1], left)))
+    return bad
+
+
 def monitors(case, run):
     if run.hang is not None:
         return [('hang', run.hang)]
-    return mon_queue(case, run.log) + mon_cancel(case, run.log) + mon_cleanup(case, run) + mon_unexpected(case, run.log, getattr(run, 'labels', None))
+    return mon_queue(case, run.log) + mon_cancel(case, run.log) + mon_cleanup(case, run) + mon_outlives(case, run.log) + mon_unexpected(case, run.log, getattr(run, 'labels', None))
